@@ -533,6 +533,7 @@ func ExecConc(p *Plan) *ConcResult {
 	defer simrt.EndRun()
 	res := &ConcResult{Porcupine: "skipped"}
 	e := NewEngine("C11", p.World, "", false)
+	e.Obs.R = NewRng(Mix(p.Seed, 0x0b5))
 	res.RunResult = *e.res
 	for i, c := range p.Cmds {
 		e.Exec(i, c.clone())
